@@ -19,8 +19,10 @@ PLANS = {
         (SEEDS, [ALL, ALL], {}),
         (["empty", "wired"], [("io_lite", "init_lite")] * 4, {"vcap": 3}),
         (SEEDS, [("construct",), ("construct", "io_lite", "init_lite", "nodelist")], {"vcap": 4}),
+        (["dupnames"], [("values",), ("values",), ("nodelist", "edges")], {"vcap": 4}),
     ],
     "thorough": [
+        (["dupnames"], [("values",), ("values",), ("values", "nodelist", "edges"), ("nodelist", "edges")], {"vcap": 4, "pair_cap": 3}),
         (SEEDS, [ALL, ALL], {}),
         (SEEDS, [COLL, COLL, COLL], {"vcap": 6, "pair_cap": 3}),
         (SEEDS, [LIST, LIST, LIST], {"vcap": 6, "pair_cap": 3}),
